@@ -80,13 +80,15 @@ def run(repo, tier):
     rep.not_decided = ['value computed by eval() for an operand expression (C11 trusted base)',
                        'CSR numbers >= 0x800 are only expressible as negative immediates (I-format range)']
     mns = encprops.check_tables(rep, facts, 'R1.tables', oracle.RV32, compressed=False)
-    encprops.check_layout(rep, facts, mns, 'R1.layout')
-    encprops.check_injective(rep, facts, mns, 'R1.injective')
-    encprops.check_disjoint(rep, facts, mns, 'R1.disjoint', 32)
-    encprops.check_wiring(rep, facts, 'R1.wiring', False, repo.text['docs/instruction_reference.rst'])
-    encprops.check_rebuild_invariant(rep, facts, 'R1.rebuild')
-    encprops.check_registers(rep, facts, 'R1.registers')
-    encprops.check_resolve_instructions(rep, facts, 'R1.pack')
+    # each rule group on its own: what one group does not understand is a deferred no-verdict, not the end of the run
+    at = encprops.attempt
+    at(rep, encprops.check_layout, rep, facts, mns, 'R1.layout')
+    at(rep, encprops.check_injective, rep, facts, mns, 'R1.injective')
+    at(rep, encprops.check_disjoint, rep, facts, mns, 'R1.disjoint', 32)
+    at(rep, encprops.check_wiring, rep, facts, 'R1.wiring', False, repo.text['docs/instruction_reference.rst'])
+    at(rep, encprops.check_rebuild_invariant, rep, facts, 'R1.rebuild')
+    at(rep, encprops.check_registers, rep, facts, 'R1.registers')
+    at(rep, encprops.check_resolve_instructions, rep, facts, 'R1.pack')
     if tier == 'thorough':
         forward_walk(rep, facts, mns)
     rep.floor('mnemonic bindings', 66)
